@@ -369,6 +369,8 @@ package raft
 //@   maypanic OpError
 //@   props C15
 //@   ensures [C02.start-index] l.startIndex == old(l.lastLogIndex) + 1 && l.term == old(l.term)
+// what every leader handler assumes is established when leadership starts
+//@   ensures [C15+C09.leader-invariant-established] LeaderBase(l)
 //@   ensures [C02.own-term-entries] forall(i, l.startIndex <= i && i <= l.lastLogIndex ==> l.gterm[i] == l.term)
 //@   ensures [C04.leader-append-only] l.lastLogIndex >= old(l.lastLogIndex) && forall(i, i <= old(l.lastLogIndex) ==> l.gterm[i] == old(l.gterm[i]) && l.gtyp[i] == old(l.gtyp[i]))
 //@   ensures [C02.leader-commit-rule] l.commitIndex >= old(l.commitIndex) && (l.commitIndex != old(l.commitIndex) ==> l.commitIndex >= l.startIndex)
